@@ -55,7 +55,7 @@ def sh(cmd, cwd=None, timeout=3600, env=None, check=False):
     p = subprocess.run(cmd, cwd=cwd, env=env or ENV, stdout=subprocess.PIPE, stderr=subprocess.STDOUT,
                        text=True, timeout=timeout, shell=isinstance(cmd, str))
     if check and p.returncode != 0:
-        raise RuntimeError("command failed: %s\n%s" % (cmd, p.stdout[-4000:]))
+        raise BuildError("command failed: %s\n%s" % (cmd, p.stdout[-4000:]))
     return p.returncode, p.stdout
 
 
